@@ -47,7 +47,14 @@ def generate(rng, tier):
     return [mk(rng) for _ in range(n)]
 
 
-def against_fresh(res, fresh, who):
+def asks_close(raw):
+    """the request's own words, read independently of the implementation: a Connection field one of whose comma-separated, case-insensitive options is `close`"""
+    head = raw.split(b'\r\n\r\n', 1)[0].split(b'\r\n')[1:]
+    vals = [l.split(b': ', 1)[1] for l in head if l.lower().startswith(b'connection: ')]
+    return any(o.strip().lower() == b'close' for v in vals for o in v.split(b','))
+
+
+def against_fresh(res, fresh, who, script=None):
     """the property on one observed response list: k-th response = what the same request gets alone, in order, nothing after Connection: close"""
     v, k = [], 0
     for i, f in enumerate(fresh):
@@ -62,6 +69,9 @@ def against_fresh(res, fresh, who):
             v.append(('violation', f'{who}: response {k + 1} differs from the response the same request gets on a fresh connection: {unhx(res[k])[-160:]!r} vs {unhx(fr[0])[-160:]!r}'))
             break
         k += 1
+        if script is not None and i < len(script) and fr and unhx(fr[0])[9:12] not in (b'400', b'413', b'501', b'505') and asks_close(unhx(script[i])) and f['end'] != 'closed_by_server':
+            v.append(('violation', f'{who}: request {i + 1} carries Connection: close (as one of its options, in some letter case) and the session went on after its response'))
+            break
         if f['end'] == 'closed_by_server':
             if len(res) > k: v.append(('violation', f'{who}: responses were written after the Connection: close response'))
             break
@@ -72,7 +82,7 @@ def judge(case, out, m):
     if 'panic' in out: return [('violation', 'panic: ' + out['panic'][:160])]
     res = out['responses']
     fresh = out.get('fresh', [])
-    v = against_fresh(res, fresh, 'session loop (mirror over the hooks)')
+    v = against_fresh(res, fresh, 'session loop (mirror over the hooks)', case.get('script'))
     if 'real' in out:
         if 'panic' in out['real']: v.append(('violation', 'the real session loop panicked: ' + str(out['real'])[:160]))
         elif unhx(out['real']['all']) != b''.join(unhx(r) for r in res) and not v:
